@@ -66,6 +66,8 @@ impl Display for SimpleNumber {
 
 impl Hash for SimpleNumber {
     fn hash<H: Hasher>(&self, state: &mut H) {
+        // variant first: an integer's bytes can spell a float's decimal text (-13291983 and "1.5")
+        std::mem::discriminant(self).hash(state);
         match self {
             Integer(v) => v.hash(state),
             Float(v) => format!("{}", v).hash(state),
